@@ -312,6 +312,12 @@ def run():
         for k, fails in ([(1, 1)] if quick else [(0, 1), (1, 1), (1, 2), (3, 1)]):
             scs.append(dial_fail("C15/dialfail/%d-%d/k%d-f%d" % (I, T, k, fails), I, T, k, fails))
         scs.append(bping_burst("C15/bping/%d-%d/16" % (I, T), I, T, 16))
+    # the broker floods the client with e2e calls nobody fetches (more than the 1024 + 8 the inboxes hold) while it keeps answering pings:
+    # whatever happens to the surplus calls, pongs must still be read - the live connection is kept
+    fl = [{"a": "stallWatch"}, {"a": "connect", "must": True}]
+    fl += [{"a": "sendCall", "callID": "fl%d" % n, "tag": n % 200} for n in range(1100)]
+    fl += [{"a": "atMs", "c": 1, "ms": 1800}] + tail_steps()
+    scs.append({"id": "C15/live/200-100/callFlood", "kind": "iscp", "conn": {"pingMs": [200, 100]}, "p": params(200, 100), "steps": fl})
     # I < T with pongs slower than the interval but in time: the next ping is due before the previous pong arrived
     scs.append(live("C15/live/100-600/slow", 100, 600, "slow", window_intervals=24))
     if not quick:
